@@ -208,7 +208,7 @@ pub fn run(g: &mut Global) {
         },
         &check,
     );
-    g.random("random", g.tier.pick(20_000, 500_000), &random_strategy, &check);
+    g.random("random", g.tier.pick(20_000, 5_000_000), &random_strategy, &check);
     if g.tier == Tier::Thorough {
         // raw 64-bit patterns under libFuzzer's comparison tracing: the only generator here that can hit a
         // single magic bit pattern (a sentinel NaN payload, say)
